@@ -637,18 +637,17 @@ impl GRLParser {
         // Handle logical operators with proper parentheses support
         let trimmed = when_clause.trim();
 
-        // Strip outer parentheses if they exist
-        let clause = if trimmed.starts_with('(') && trimmed.ends_with(')') {
+        // Strip outer parentheses if they exist (every redundant pair: "((A && B))")
+        let mut clause = trimmed;
+        while clause.starts_with('(') && clause.ends_with(')') {
             // Check if these are the outermost parentheses
-            let inner = &trimmed[1..trimmed.len() - 1];
+            let inner = &clause[1..clause.len() - 1];
             if self.is_balanced_parentheses(inner) {
-                inner
+                clause = inner.trim();
             } else {
-                trimmed
+                break;
             }
-        } else {
-            trimmed
-        };
+        }
 
         // Parse OR at the top level (lowest precedence)
         if let Some(parts) = self.split_logical_operator(clause, "||") {
